@@ -1,8 +1,54 @@
+import Autog.Model.Pipeline
 import Autog.Lemmas.ComponentsDfs
-/-! # C09
-    Components. First pass: the DFS visits exactly the connectivity class of its start node. -/
+/-! # C09 — components are laid out independently, side by side
+
+    On the composed model `layoutModel` (Autog/Model/Pipeline.lean):
+    * every component goes through `layoutComponent` alone — the function has no other argument than the component
+      and the configuration, so what it returns cannot depend on the other components;
+    * `collect` concatenates the per-component results, each translated in x by a constant (`C09_component_translated`),
+      and the constants grow by `rightmostX + NodeSpacing` (`C09_collect_cons`; separation: C04_shift_clears_component);
+    * `walkDfs` (the machine the components model runs) visits exactly the connectivity class of its start node
+      (`C09_component_is_class`).
+    Tie: `T:pre` (components of the real code = components of the model, in order), `T:output` (real collection = `collect`),
+    `Shared` facts (no package-level state survives from one component to the next). -/
 
 namespace Autog
+
+/-- translate a result in x -/
+def translateOut (d : Rat) (o : Out) : Out :=
+  { nodes := o.nodes.map fun n => { n with x := n.x + d },
+    edges := o.edges.map fun e => { e with pts := e.pts.map fun ps => ps.map fun p => (p.1 + d, p.2) } }
+
+theorem C09_collect_cons (cfg : Cfg) (shift : Rat) (ci : Nat) (g : G) (gs : List G) :
+    collect cfg shift ci (g :: gs) =
+      { nodes := (collectComp cfg shift ci g).nodes ++ (collect cfg (shift + (rightmostX g + cfg.ns)) (ci + 1) gs).nodes,
+        edges := (collectComp cfg shift ci g).edges ++ (collect cfg (shift + (rightmostX g + cfg.ns)) (ci + 1) gs).edges } := rfl
+
+/-- what a component contributes to the result is its own layout (shift 0), translated by the running shift -/
+theorem C09_component_translated (cfg : Cfg) (shift : Rat) (ci : Nat) (g : G) :
+    collectComp cfg shift ci g = translateOut shift (collectComp cfg 0 ci g) := by
+  unfold collectComp translateOut
+  simp only [List.map_map, Out.mk.injEq]
+  constructor
+  · apply List.map_congr_left
+    intro n _
+    simp only [Function.comp, ONode.mk.injEq, and_true, true_and]
+    grind
+  · apply List.map_congr_left
+    intro e _
+    simp only [Function.comp, OEdge.mk.injEq, true_and]
+    split
+    · simp
+    · simp only [Option.map_some, List.map_map, Option.some.injEq]
+      apply List.map_congr_left
+      intro p _
+      simp only [Function.comp, Prod.mk.injEq, and_true]
+      grind
+
+/-- the first component is not translated at all -/
+theorem C09_first_component (ord : G → M G) (cfg : Cfg) (g : G) (gs : List G) :
+    (collect cfg 0 0 (g :: gs)).nodes.take (collectComp cfg 0 0 g).nodes.length = (collectComp cfg 0 0 g).nodes := by
+  rw [C09_collect_cons]; simp
 
 theorem C09_component_is_class : type_of% @ComponentsDfs.closed_connected := @ComponentsDfs.closed_connected
 
